@@ -13,7 +13,56 @@ def m_strictness(v, params):
     return v["kind"] == "reported-unused-parameter-influences-outcome" and v["differs"] == "fail-vs-return"
 
 
-MATCHERS = {"strictness": m_strictness}
+def _forms(text):
+    """nested lists of tokens of a source text (strings and comments do not occur in generated programs)"""
+    toks = text.replace("(", " ( ").replace(")", " ) ").split()
+    pos = 0
+
+    def rd():
+        nonlocal pos
+        t = toks[pos]
+        pos += 1
+        if t == "(":
+            out = []
+            while pos < len(toks) and toks[pos] != ")":
+                out.append(rd())
+            pos += 1
+            return out
+        return t
+    out = []
+    while pos < len(toks):
+        out.append(rd())
+    return out
+
+
+def m_permuting_recursion(v, params):
+    # a function that calls itself with one of its own parameters in another argument position (rotation, swap): the
+    # check follows a conditional only once per location and answers a second entry with the condition alone, so what
+    # the recursive call's arguments carry in their new places is lost
+    if v["kind"] != "reported-unused-parameter-influences-outcome":
+        return False
+    try:
+        top = _forms(v["source"])[0]
+    except Exception:
+        return False
+    defs = {f[1]: f for f in top if isinstance(f, list) and len(f) >= 4 and f[0] in ("defun", "defun-inline") and isinstance(f[1], str) and isinstance(f[2], list)}
+
+    def calls(e, name):
+        if isinstance(e, list):
+            if e and e[0] == name:
+                yield e
+            for x in e:
+                yield from calls(x, name)
+    for name, f in defs.items():
+        ps = [p for p in f[2] if isinstance(p, str)]
+        for c in calls(f[3:], name):
+            for i, a in enumerate(c[1:]):
+                if isinstance(a, str) and a in ps and ps.index(a) != i:
+                    return True
+    return False
+
+
+MATCHERS = {"strictness": m_strictness, "permuting_recursion": m_permuting_recursion}
 
 
 def _drive(acc, n, pairs):
